@@ -80,6 +80,16 @@ func (eng *Engine) contractFor(f *types.Func, from *Pkg) *Contract {
 		if c, ok := from.cf.Contracts[k]; ok {
 			return c
 		}
+		// the caller's file may name the package by its import alias (e.g. servercommon.F)
+		if f.Pkg() != nil {
+			for alias, path := range from.importAlias {
+				if path == f.Pkg().Path() && f.Type().(*types.Signature).Recv() == nil {
+					if c, ok := from.cf.Contracts[alias+"."+f.Name()]; ok {
+						return c
+					}
+				}
+			}
+		}
 		if f.Pkg() == from.Types {
 			if c, ok := from.cf.Contracts[funcKey(f, from.Types)]; ok {
 				return c
@@ -417,6 +427,7 @@ func (fc *FnCtx) lockHavoc(st *State, base Val, g *Guard) {
 			}
 			if !deep {
 				k, ks := fc.fieldKey(sT, f)
+				fc.readField(st, base, i) // typing facts about the value before the acquisition (used by rely)
 				nv := fc.freshVal(st, "lk_"+fn, f.Type())
 				fc.setComp(st, k, ks, sto(fc.comp(st, k, ks), base.T, nv.T))
 				continue
@@ -547,7 +558,7 @@ func (fc *FnCtx) evalCallWith(st *State, call *ast.CallExpr, preRecv *Val, preAr
 	if vs, ok := fc.atomicCall(st, call, f); ok {
 		return vs
 	}
-	if fc.isQuiet(f) {
+	if fc.isQuiet(f) && fc.eng.contractFor(f, fc.pkg) == nil {
 		rs := fc.freshResults(st, call, "q_"+f.Name())
 		if f.Pkg() != nil && f.Pkg().Path() == "fmt" && f.Name() == "Errorf" && len(rs) == 1 {
 			st.assume("(> " + rs[0].T + " 0)")
@@ -601,15 +612,7 @@ func (fc *FnCtx) evalCallWith(st *State, call *ast.CallExpr, preRecv *Val, preAr
 	if v, ok := fc.knownLibCall(st, call, f, recv, args); ok {
 		return v
 	}
-	ct := fc.eng.contractFor(f, fc.pkg)
-	if rp := fc.root().pkg; rp != nil && rp.cf != nil {
-		suffix := "@" + strings.TrimPrefix(fc.root().key, rp.Types.Name()+".")
-		if sc, ok := rp.cf.Contracts[funcKey(f.Origin(), nil)+suffix]; ok {
-			ct = sc
-		} else if sc, ok := rp.cf.Contracts[funcKey(f.Origin(), rp.Types)+suffix]; ok {
-			ct = sc
-		}
-	}
+	ct := fc.lookupContract(f)
 	if ct != nil {
 		return fc.applyContract(st, call, f, ct, recv, args)
 	}
@@ -791,9 +794,11 @@ func (fc *FnCtx) evalBuiltin(st *State, call *ast.CallExpr, name string) []Val {
 			if len(call.Args) > 2 {
 				c = fc.eval(st, call.Args[2])
 			}
-			g := fmt.Sprintf("(and (<= 0 %s) (<= %s %s) (<= %s %s))", n.T, n.T, c.T, c.T, MaxAlloc)
-			fc.assert(st, "make", exprText(call), call.Pos(), g, "make: 0 <= len <= cap <= MaxAlloc (A-mem)")
+			g := fmt.Sprintf("(and (<= 0 %s) (<= %s %s))", n.T, n.T, c.T)
+			fc.assert(st, "make", exprText(call), call.Pos(), g, "make: 0 <= len <= cap (a negative size panics)")
 			st.assume(g)
+			// A-mem: an allocation that succeeds is at most 2^40 elements
+			st.assume(fmt.Sprintf("(<= %s %s)", c.T, MaxAlloc))
 			base := fc.alloc(st, "mk")
 			s := Val{fmt.Sprintf("(mk_Slice %s 0 %s %s)", base, n.T, c.T), t}
 			st.known["freshbase:"+s.T] = true
@@ -1912,7 +1917,7 @@ func (fc *FnCtx) callMods(call *ast.CallExpr, ms *modSet, depth int) {
 	} else {
 		return
 	}
-	if ct := fc.eng.contractFor(f, fc.pkg); ct != nil {
+	if ct := fc.lookupContract(f); ct != nil {
 		if ct.Pure || ct.Quiet {
 			return
 		}
@@ -2305,4 +2310,20 @@ func (fc *FnCtx) pureApp(ct *Contract, recv *Val, args []Val, rt types.Type, i i
 		t = "(" + name + " " + strings.Join(ats, " ") + ")"
 	}
 	return Val{t, rt}
+}
+
+// lookupContract: the contract that applies to a call of f from the function under verification
+// (a caller-scoped extern `KEY@<function>` overrides the general one)
+func (fc *FnCtx) lookupContract(f *types.Func) *Contract {
+	ct := fc.eng.contractFor(f, fc.pkg)
+	r := fc.root()
+	if rp := r.pkg; rp != nil && rp.cf != nil && r.key != "" {
+		suffix := "@" + strings.TrimPrefix(r.key, rp.Types.Name()+".")
+		if sc, ok := rp.cf.Contracts[funcKey(f.Origin(), nil)+suffix]; ok {
+			ct = sc
+		} else if sc, ok := rp.cf.Contracts[funcKey(f.Origin(), rp.Types)+suffix]; ok {
+			ct = sc
+		}
+	}
+	return ct
 }
